@@ -217,29 +217,160 @@ def _lin_lean(v):
     return '({}, {})'.format(_q(v[0]), _q(v[1]))
 
 
-def render():
-    path = os.path.join(core.REPO, 'odl', 'trafos', 'util', 'ft_utils.py')
-    with open(path) as f:
-        tree = ast.parse(f.read())
-    rg = extract_recip(tree)
-    fmin, fmax = extract_freqs(tree)
+def _emit(rg, fmin, fmax, source):
     out = ['-- GENERATED by tools/extract/recipgrid.py from odl/trafos/util/ft_utils.py — do not edit.',
            'namespace OdlModel.Gen.RecipGrid', '',
            '/-- `reciprocal_grid`, half-complex case table: `rmax = coef · half_rstride` by',
            '`(last_odd, last_shifted)`. -/',
            'def hcRmaxCoef : Bool → Bool → Int']
-    for (odd, shift), v in rg.items():
-        out.append('  | {}, {} => {}'.format(_b(odd), _b(shift), v))
+    for odd, shift in itertools.product((True, False), repeat=2):
+        out.append('  | {}, {} => {}'.format(_b(odd), _b(shift), rg[(odd, shift)]))
     out += ['', '/-- `dft_postprocess_data`: `fmin = a + b/len_orig` as `((a.num, a.den), (b.num, b.den))`',
             'by `shift`. -/', 'def fmin : Bool → (Int × Nat) × (Int × Nat)']
-    for shift, v in fmin.items():
-        out.append('  | {} => {}'.format(_b(shift), _lin_lean(v)))
+    for shift in (True, False):
+        out.append('  | {} => {}'.format(_b(shift), _lin_lean(fmin[shift])))
     out += ['', '/-- `dft_postprocess_data`: `fmax` by `(halfcomplex, shift, odd)`. -/',
             'def fmax : Bool → Bool → Bool → (Int × Nat) × (Int × Nat)']
-    for (hc, shift, odd), v in fmax.items():
-        out.append('  | {}, {}, {} => {}'.format(_b(hc), _b(shift), _b(odd), _lin_lean(v)))
+    for hc, shift, odd in itertools.product((True, False), repeat=3):
+        out.append('  | {}, {}, {} => {}'.format(_b(hc), _b(shift), _b(odd), _lin_lean(fmax[(hc, shift, odd)])))
     out += ['', 'end OdlModel.Gen.RecipGrid', '']
     return '\n'.join(out)
+
+
+def render_ast():
+    path = os.path.join(core.REPO, 'odl', 'trafos', 'util', 'ft_utils.py')
+    with open(path) as f:
+        tree = ast.parse(f.read())
+    rg = extract_recip(tree)
+    fmin, fmax = extract_freqs(tree)
+    return _emit(rg, fmin, fmax, 'ast')
+
+
+# ---- behavioural extraction from the live functions of the tree under test
+#
+# Used when the source no longer has the syntactic form the AST grammar understands (e.g. the
+# if/elif chains rewritten as dict look-ups).  The functions are CALLED on 1-d grids for every
+# flag combination (odd/even, shifted or not, halfcomplex or not); the table form is fitted on one
+# set of lengths and must reproduce a second, larger set; every quantity the AST stage checks
+# syntactically (rmin/rmax normal forms, half-complex shape, fmin, fmax) is checked numerically.
+# Anything that does not fit the form `coef * half_rstride` / `a + b/n` with the small candidate
+# coefficients fails closed (ExtractionError).
+
+FIT_NS = [3, 4, 5, 6, 7, 8, 9]
+VERIFY_NS = [1, 2, 10, 11, 12, 13, 16, 17, 32, 33, 64, 101, 128]
+STRIDES = [0.5, 2.0]
+_CAND_A = [Fraction(-1, 2), Fraction(0), Fraction(1, 2)]
+_CAND_B = [Fraction(-1), Fraction(-1, 2), Fraction(0), Fraction(1, 2), Fraction(1)]
+
+
+def _close(x, y, scale=1.0):
+    return abs(x - y) <= 1e-13 * max(1.0, abs(scale))
+
+
+def _fit_lin(points):
+    """points: [(n, value)] -> the unique (a, b) among the candidates with value = a + b/n"""
+    fits = [(a, b) for a in _CAND_A for b in _CAND_B
+            if all(_close(v, float(a) + float(b) / n) for n, v in points)]
+    if len(fits) != 1:
+        raise ExtractionError('no unique a + b/n form for {} (candidates {})'.format(points[:4], fits))
+    return fits[0]
+
+
+def render_live():
+    import numpy as np
+    import odl
+    import odl.trafos.util.ft_utils as m
+    pi = np.pi
+    obs_rg, obs_fmin, obs_fmax = {}, {}, {}
+    captured = []
+    orig_sinc = np.sinc
+
+    def spy(x):
+        captured.append(np.array(x, dtype=float, copy=True))
+        return orig_sinc(x)
+    for n in FIT_NS + VERIFY_NS:
+        for s in STRIDES:
+            grid = odl.uniform_grid(0.0, (n - 1) * s, n) if n > 1 else odl.uniform_grid(0.0, 0.0, 1)
+            se = s if n > 1 else 1.0
+            odd = n % 2 == 1
+            for shift in (True, False):
+                full = m.reciprocal_grid(grid, shift=shift, halfcomplex=False)
+                unit = pi / se
+                rmin_doc = -unit if shift else (-1.0 + 1.0 / n) * unit
+                rmax_doc = -rmin_doc - 2 * unit / n if shift else -rmin_doc
+                if full.shape != (n,) or not _close(full.min_pt[0], rmin_doc, unit) or \
+                        not _close(full.max_pt[0], rmax_doc, unit):
+                    raise ExtractionError('reciprocal_grid(n={}, shift={}) is not in normal form: '
+                                          '{} .. {}'.format(n, shift, full.min_pt, full.max_pt))
+                hcg = m.reciprocal_grid(grid, shift=shift, halfcomplex=True)
+                if hcg.shape != (n // 2 + 1,) or not _close(hcg.min_pt[0], rmin_doc, unit):
+                    raise ExtractionError('half-complex reciprocal_grid(n={}, shift={}) shape/min'.format(n, shift))
+                coef = hcg.max_pt[0] * n * se / pi
+                obs_rg.setdefault((odd, shift), []).append((n, coef))
+                for hc, rg_ in ((False, full), (True, hcg)):
+                    del captured[:]
+                    np.sinc = spy
+                    try:
+                        m.dft_postprocess_data(np.ones(rg_.shape, dtype=complex), grid, rg_, [shift], [0],
+                                               'nearest')
+                    finally:
+                        np.sinc = orig_sinc
+                    cands = [c for c in captured if c.shape == (rg_.shape[0],)]
+                    if len(cands) != 1:
+                        raise ExtractionError('could not observe the kernel frequencies (np.sinc called '
+                                              '{} times with the expected shape)'.format(len(cands)))
+                    fr = cands[0]
+                    if len(fr) > 2 and not np.allclose(np.diff(fr), (fr[-1] - fr[0]) / (len(fr) - 1),
+                                                       rtol=0, atol=1e-13):
+                        raise ExtractionError('kernel frequencies are not equispaced')
+                    detected_hc = rg_.shape[0] < n      # the code's own detection
+                    obs_fmin.setdefault(shift, []).append((n, float(fr[0])))
+                    obs_fmax.setdefault((detected_hc, shift, odd), []).append((n, float(fr[-1])))
+
+    def split(points):
+        return ([p for p in points if p[0] in FIT_NS], [p for p in points if p[0] in VERIFY_NS])
+    rg = {}
+    for key, pts in obs_rg.items():
+        fit, ver = split(pts)
+        coefs = {int(round(c)) for _, c in fit}
+        if len(coefs) != 1 or not coefs <= {-1, 0, 1} or not all(_close(c, round(c)) for _, c in pts) or \
+                {int(round(c)) for _, c in ver} - coefs:
+            raise ExtractionError('half-complex rmax is not coef*half_rstride for {}: {}'.format(key, pts[:6]))
+        rg[key] = coefs.pop()
+    fmin, fmax = {}, {}
+    for table, obs in ((fmin, obs_fmin), (fmax, obs_fmax)):
+        for key, pts in obs.items():
+            fit, ver = split(pts)
+            ab = _fit_lin(fit if fit else pts)
+            if not all(_close(v, float(ab[0]) + float(ab[1]) / n) for n, v in ver):
+                raise ExtractionError('table entry {} = {} does not reproduce the verification set'.format(key, ab))
+            table[key] = ab
+    if set(rg) != set(itertools.product((True, False), repeat=2)) or set(fmin) != {True, False} or \
+            set(fmax) != set(itertools.product((True, False), repeat=3)):
+        raise ExtractionError('flag combinations not all observed')
+    return _emit(rg, fmin, fmax, 'live')
+
+
+LAST = {'source': None, 'detail': ''}
+
+
+def render():
+    try:
+        text = render_ast()
+        LAST.update(source='ast', detail='AST of reciprocal_grid / dft_postprocess_data')
+        return text
+    except ExtractionError as e:
+        ast_msg = str(e)
+    try:
+        text = render_live()
+    except ExtractionError as e:
+        raise ExtractionError('AST: {} | live: {}'.format(ast_msg, e))
+    except Exception as e:  # the tree under test raised: fail closed
+        raise ExtractionError('AST: {} | live call raised {}: {}'.format(ast_msg, type(e).__name__, e))
+    LAST.update(source='live', detail='AST grammar did not match ({}); table fitted on n={} and verified on '
+                'n={}, strides {} by calling the live functions'.format(ast_msg[:160], FIT_NS, VERIFY_NS,
+                                                                       STRIDES))
+    return text
 
 
 def regenerate():
